@@ -2,6 +2,23 @@
 over the shards; budgets are case counts, never time."""
 
 PROPS = {
+    "C19": {
+        "pkg": "c19", "needs_gw": True, "level": "exploration",
+        "technique": "property-based testing (rapid): generated concurrent programs of succeeding and failing mutating requests x event-filter configurations against a real gateway with a webhook receiver; oracle = expected multiset of notification records",
+        "level_text": ("Generated programs of 5-40 (thorough: 200) requests - put, copy, multipart completion, delete, batch delete (by a caller who may "
+                       "delete only some of the keys), tagging put / delete - on distinct keys (with spaces, '+', non-ASCII, nesting), a fifth of them made "
+                       "to fail (missing bucket, bad digest, access denied), issued by 1-16 concurrent clients to a real gateway process started with "
+                       "--event-webhook-url and a generated --event-filter file (absent / per-event booleans / wildcards). A receiver inside the harness "
+                       "collects the records. After quiescence the multiset of records must equal the expectation: exactly one record per key "
+                       "affected by a successful request whose event type passes the filter, none for failed requests, right bucket, byte-exact key, "
+                       "event type, size and ETag (for puts)."),
+        "level_note": "quiescence = all expected records arrived and 400 ms of silence, or 7 s (> 2x the sender's own client time-out). Two open findings narrow the oracle: size 0 in copy / multipart notifications, and batch-delete notifications for keys whose deletion failed. Exploration only.",
+        "rule": ("case = (filter, clients, ops). Non-trivial: >= 2 clients and >= 1 failing request; distinct by the full case."),
+        "assumptions": ["webhook delivery on loopback; kafka / nats senders are not exercised (no broker offline)"],
+        "jobs": [
+            {"run": "TestC19A", "quick": 320, "thorough": 6000, "shards_quick": 16, "shards_thorough": 16},
+        ],
+    },
     "C16": {
         "pkg": "c16", "needs_gw": True, "level": "exploration",
         "technique": "property-based testing (rapid): bucket-name grammar vs the S3 naming rules; stateful bucket population / ownership / paged ListBuckets model; settings state machine with restarts; (with hooks) schedule-controlled DeleteBucket races",
